@@ -371,3 +371,36 @@ Definition fills_enum_with_bareword (s : schema) (_ : list action) (a : action) 
   | _ => false
   end.
 Definition known_C02_nullable_fill_bareword_enum (s : schema) (acts : list action) : bool := exists_step fills_enum_with_bareword s acts.
+
+(* ---- C02-reference-before-key (the SQLite side of C06-reference-added-later; C03-reference-before-key on PostgreSQL):
+   a foreign key is created — CreateTable is hoisted to the front of the plan, AddConstraint of an earlier table — while
+   its target table, target column or the primary key / unique over exactly the referenced columns is only established by
+   a later action of the same plan.  SQLite accepts the declaration; with foreign_keys=ON the next statement that has to
+   look the key up (the INSERT of the rebuild that adds the foreign key, the DROP TABLE of a rebuild of the target) answers
+   'foreign key mismatch - "child" referencing "parent"' (or 'no such table' when the target does not exist yet) *)
+Definition same_names (a b : list string) : bool :=
+  (forallb (fun x => existsb (String.eqb x) b) a && forallb (fun x => existsb (String.eqb x) a) b)%bool.
+Definition is_key_in (s : schema) (rt : string) (rcs : list string) : bool :=
+  match find_table rt s with
+  | None => false
+  | Some p => existsb (fun k => match k with
+                                | CPrimaryKey _ cols | CUnique _ cols => same_names cols rcs
+                                | _ => false
+                                end) (t_constraints p)
+  end.
+Definition foreign_keys_created (s : schema) (a : action) : list (string * list string) :=
+  match a with
+  | AddConstraint _ (CForeignKey _ _ rt rcs _ _) => [(rt, rcs)]
+  | CreateTable t _ _ =>
+      match find_table t (apply_ignoring s a) with
+      | Some td => flat_map (fun k => match k with
+                                      | CForeignKey _ _ rt rcs _ _ => if String.eqb rt t then [] else [(rt, rcs)]
+                                      | _ => []
+                                      end) (t_constraints td)
+      | None => []
+      end
+  | _ => []
+  end.
+Definition references_before_key (s : schema) (_ : list action) (a : action) : bool :=
+  existsb (fun x => negb (is_key_in s (fst x) (snd x))) (foreign_keys_created s a).
+Definition known_C02_reference_before_key (s : schema) (acts : list action) : bool := exists_step references_before_key s acts.
